@@ -142,6 +142,8 @@ def attribute(tokeniser: 'Tokeniser') -> GenericAttribute:
         code_int: int = int(code, 16)
     except ValueError:
         raise ValueError(f"'{code}' is not a valid attribute code\n  Must be hexadecimal (e.g., 0x01)") from None
+    if code_int > _SIZE_B:
+        raise ValueError(f"'{code}' is not a valid attribute code\n  Must be 0x00 to 0xFF")
 
     flag = tokeniser().lower()
     if not flag.startswith('0x'):
@@ -150,6 +152,8 @@ def attribute(tokeniser: 'Tokeniser') -> GenericAttribute:
         flag_int: int = int(flag, 16)
     except ValueError:
         raise ValueError(f"'{flag}' is not a valid attribute flag\n  Must be hexadecimal (e.g., 0x40)") from None
+    if flag_int > _SIZE_B:
+        raise ValueError(f"'{flag}' is not a valid attribute flag\n  Must be 0x00 to 0xFF")
 
     data = tokeniser().lower()
     if not data.startswith('0x'):
@@ -319,7 +323,7 @@ def originator_id(tokeniser: 'Tokeniser') -> OriginatorID:
     value = tokeniser()
     if value.count('.') != IPv4.DOT_COUNT:
         raise ValueError(f"'{value}' is not a valid originator-id\n  Format: IPv4 address (e.g., 192.0.2.1)")
-    if not all(_.isdigit() for _ in value.split('.')):
+    if not all(_.isascii() and _.isdigit() and int(_) <= _SIZE_B for _ in value.split('.')):
         raise ValueError(f"'{value}' is not a valid originator-id\n  Format: IPv4 address (e.g., 192.0.2.1)")
     return OriginatorID.from_string(value)
 
@@ -356,10 +360,11 @@ def _community(value: str) -> Community:
 
         prefix_int, suffix_int = int(prefix), int(suffix)
 
-        if prefix_int > Community.MAX:
+        # each half of a community is a 16-bit number (RFC 1997)
+        if prefix_int > _SIZE_H:
             raise ValueError('invalid community {} (prefix too large)'.format(value))
 
-        if suffix_int > Community.MAX:
+        if suffix_int > _SIZE_H:
             raise ValueError('invalid community {} (suffix too large)'.format(value))
 
         return Community(pack('!L', (prefix_int << 16) + suffix_int))
@@ -411,13 +416,14 @@ def _large_community(value: str) -> LargeCommunity:
     if separator > 0:
         prefix, affix, suffix = value.split(':')
 
-        if not any(map(lambda c: c.isdigit(), [prefix, affix, suffix])):
+        if not all(c.isdigit() for c in [prefix, affix, suffix]):
             raise ValueError('invalid community {}'.format(value))
 
         prefix_int, affix_int, suffix_int = map(int, [prefix, affix, suffix])
 
+        # each part of a large community is a 32-bit number (RFC 8092)
         for i in [prefix_int, affix_int, suffix_int]:
-            if i > LargeCommunity.MAX:
+            if i > _SIZE_L:
                 raise ValueError('invalid community %i in %s too large' % (i, value))
 
         return LargeCommunity(pack('!LLL', prefix_int, affix_int, suffix_int))
